@@ -310,7 +310,9 @@ def run(ctx):
     quick = ctx.tier == "quick"
     runs = [("depth2", dict(MaxDepth=2, MaxQubits=3, MaxNonRing=1, Bases="<-BasesAll", Emitting=True)),
             ("depth3-ring", dict(MaxDepth=3, MaxQubits=2, MaxNonRing=0, Bases="{1, 2, 5, 8, 10}", Emitting=True)),
-            ("depth3-one-nonring-X", dict(MaxDepth=3, MaxQubits=3, MaxNonRing=1, Bases="{1}", Emitting=True))]
+            ("depth3-one-nonring-X", dict(MaxDepth=3, MaxQubits=3, MaxNonRing=1, Bases="{1}", Emitting=True)),
+            # exponentials of CONTROLLED fractional powers (gates on 3 qubits): of this run only the chains power(1/q) - controlled - exp are replayed
+            ("root-controlled-exp", dict(MaxDepth=3, MaxQubits=3, MaxNonRing=2, Bases="{1, 8}", Emitting=True))]
     if not quick:
         runs = [("depth3", dict(MaxDepth=3, MaxQubits=4, MaxNonRing=1, Bases="<-BasesAll", Emitting=True)),
                 ("depth2-two-nonring", dict(MaxDepth=2, MaxQubits=2, MaxNonRing=2, Bases="{1, 2, 5, 10, 12}", Emitting=True))]
@@ -320,6 +322,10 @@ def run(ctx):
         res = ctx.tlc("Modifiers", constants=consts, invariants=INV, action_constraints=["Emit"], view="ViewNoGm", coverage=False, timeout=3000)
         for e in res.emitted:
             e["cfg"] = name
+        if name == "root-controlled-exp":
+            res.emitted = [e for e in res.emitted if [m_["m"] for m_ in e["chain"]] == ["power", "controlled", "exp"] and e["chain"][0]["e"][1] != 1]
+            if len(res.emitted) < 4:
+                raise TLCError("Modifiers/%s: only %d chains power(1/q) - controlled - exp" % (name, len(res.emitted)))
         cases += res.emitted
     if len(cases) < 500:
         raise TLCError("Modifiers exported only %d chains" % len(cases))
